@@ -190,6 +190,9 @@ func execC07(a []string) string {
 	if len(a) < 2 {
 		return "bad-op"
 	}
+	if a[0] == "ted" {
+		return execC07Ted(a)
+	}
 	c := c07Curves[a[1]]
 	if c == nil {
 		return "bad-op"
@@ -2313,6 +2316,7 @@ func (x *c07Gen) infFlag() byte {
 }
 
 func genC07(g *gen) {
+	genC07Ted(g)
 	for i, name := range c07CurveNames {
 		c := c07Curves[name]
 		x := &c07Gen{g: g, c: c}
